@@ -474,9 +474,65 @@ def check_factory(rep, named, logics):
         rep.count('factory_selections')
 
 
+def check_entry_points(rep):
+    """The factory's one-shot entry points on formulas that the installed
+    procedures (Boolean quantifier eliminators only, no solver) cannot
+    express: with logic omitted, AUTO or explicit they must refuse, never
+    hand the formula over."""
+    import pysmt.logics as L
+    from pysmt.exceptions import NoSolverAvailableError
+    env = common.fresh_env()
+    fac = env.factory
+    mgr = env.formula_manager
+    import pysmt.typing as T
+    r = mgr.Symbol('c13_r', T.REAL)
+    i = mgr.Symbol('c13_i', T.INT)
+    bv = mgr.Symbol('c13_b', T.BVType(4))
+    p = mgr.Symbol('c13_p')
+    forms = [
+        ('LRA', mgr.Exists([r], mgr.And(p, mgr.GT(r, mgr.Real(1))))),
+        ('LIA', mgr.ForAll([i], mgr.Or(p, mgr.LE(i, mgr.Int(3))))),
+        ('BV', mgr.Exists([bv], mgr.BVULT(bv, mgr.BV(3, 4)))),
+        ('mixed', mgr.Exists([p], mgr.And(p, mgr.GT(r, mgr.Real(1))))),
+    ]
+    for tag, f in forms:
+        detected = env.theoryo.get_theory(f)
+        for lg_name, kw in (('omitted', {}), ('AUTO', {'logic': L.AUTO}),
+                            ('AUTO-name', {'logic': 'Auto'})):
+            for name in (None, 'shannon', 'selfsub'):
+                for ep in ('qelim',):
+                    rep.count('entry_point_calls')
+                    try:
+                        k = dict(kw)
+                        if name:
+                            k['solver_name'] = name
+                        res = getattr(fac, ep)(f, **k)
+                    except NoSolverAvailableError:
+                        rep.count('entry_point_refusals')
+                        continue
+                    except Exception as e:
+                        if lg_name == 'AUTO-name':
+                            continue     # the spelling may be unknown
+                        rep.violation(
+                            'C13/entry-point/%s/raises-%s' % (
+                                ep, common.exc_name(e)),
+                            '%s(%s formula, logic %s, %s) raised %r instead '
+                            'of NoSolverAvailableError' % (ep, tag, lg_name,
+                                                           name, e))
+                        continue
+                    rep.violation(
+                        'C13/entry-point/%s/handed-over' % ep,
+                        '%s(%s formula, logic %s, eliminator %s) was handed '
+                        'to a Boolean-only procedure and returned %s' % (
+                            ep, tag, lg_name, name, str(res)[:80]))
+    rep.case(key='entry-points')
+
+
 def run(rep):
     M.NODE_MONITOR.install()
     only = rep.only
+    if (not only or only == 'entry') and rep.shard == 1 % rep.nshards:
+        check_entry_points(rep)
     rng = random.Random(rep.seed * 4241 + rep.shard)
     if (not only or only == 'order') and rep.shard == 0:
         check_order(rep)
